@@ -478,7 +478,12 @@ where
         if line_number != self.current_line.get() {
             self.sink.set_current_line(line_number);
         }
-        let ignore_lf = self.ignore_lf.take();
+        // A parse error is not a token: it does not use up "the next token" of a pending
+        // "ignore a following line feed".
+        let ignore_lf = match token {
+            tokenizer::ParseError(_) => false,
+            _ => self.ignore_lf.take(),
+        };
 
         // Handle `ParseError` and `DoctypeToken`; convert everything else to the local `Token` type.
         let token = match token {
